@@ -361,6 +361,21 @@ func (w *Health) runChecker(uniq string) {
 			break
 		}
 	}
+	// the checker has been stopped (its host set is gone): that is not a check result, the condition it had
+	// set stays as the last transition left it
+	if k := len(cbs); k > 0 && len(s.Violations) == 0 && !lateDuringNext {
+		want := healthy
+		out, sure := outlierAt(s.Now())
+		if sure {
+			if out {
+				want = false
+			}
+			if got := host.Health(); got != want {
+				s.Violate("C16", "health_changed_without_checks", "after %d checks the reference says healthy=%v (thresholds unhealthy=%d healthy=%d, outlier flag set: %v); the checker was stopped and the host now reports healthy=%v (flags %#x): stopping a checker is not a check result", k, want, uh, he, out, got, host.HealthFlag())
+			}
+			w.Stats["health_after_stop_checked"]++
+		}
+	}
 	if len(cbs) < 2 {
 		s.Violate("C16", "checker_stalled", "only %d check results were reported in %d scripted checks' time", len(cbs), n)
 	}
